@@ -345,14 +345,27 @@ def run(ck):
     ck.require(acc, "the call that accepts the connection (accept4 or a helper reaching it) not found in handleNewConnection")
     cnt = count_on_paths(hc, lambda e: e["k"] == "call" and ((e.get("callee") or "") == "Pistache::Tcp::Listener::dispatchPeer" or libc(e, "close")),
                          start=acc[0].block, start_idx=acc[0].idx + 1)
+    # a path on which the accept call is known to have returned a negative value has no descriptor to own
+    fdv0 = [d_["var"] for d_ in hc.blocks[acc[0].block].elems[acc[0].idx + 1:] if d_["k"] == "decl" and (d_.get("icall") or "") in ("accept4", "accept", acc[0].get("callee"))][:1]
+    if cnt != [1] and fdv0:
+        negs_ = {(b_.id, k_) for b_ in hc.blocks.values() if b_.term and len(b_.succs) == 2 for k_ in (0, 1) if b_.succs[k_] is not None and (
+            lib.edge_establishes(b_.term, k_, fdv0[0], ("<",), lambda r_: r_.get("const") == 0 or (r_.get("t") or "").strip() == "0") or
+            lib.edge_establishes(b_.term, k_, fdv0[0], ("==", "<="), lambda r_: r_.get("const") == -1 or (r_.get("t") or "").replace(" ", "") == "-1"))}
+        if negs_:
+            owned_ = lambda e: e["k"] == "call" and ((e.get("callee") or "") == "Pistache::Tcp::Listener::dispatchPeer" or libc(e, "close"))
+            loose_ = [x for x in cfg.exits_without(hc, owned_, start_block=acc[0].block, start_idx=acc[0].idx + 1,
+                                                   avoid_edge=lambda st, blk, k, succ: None if (blk.id, k) in negs_ else st) if x.kind != "throw"]
+            if not loose_ and max(cnt) == 1:
+                cnt = [1]
     ck.ob("C08-R4", "handleNewConnection/accepted-fd-owned", cnt == [1], acc[0].loc, hc, "dispatchPeer|close per non-throwing path after accept: %s" % cnt)
     # Listener::run catches SocketError and keeps accepting: a throw after accept4() must not leave the descriptor behind
     owned = lambda e: e["k"] == "call" and ((e.get("callee") or "") == "Pistache::Tcp::Listener::dispatchPeer" or libc(e, "close"))
     # where accept4() itself is visible here (its wrapper was expanded into this function), a descriptor exists only on the edge that
     # knows the result is not negative: the wrapper's own failure throws come before that
     avoid = None
-    if libc(acc[0], "accept4") or libc(acc[0], "accept"):
-        fdv = [d_["var"] for d_ in hc.blocks[acc[0].block].elems[acc[0].idx + 1:] if d_["k"] == "decl" and (d_.get("icall") or "") in ("accept4", "accept")][:1]
+    if True:
+        # (the same holds one level up: a wrapper that reports "nothing to accept" with a negative result, tested by its caller)
+        fdv = [d_["var"] for d_ in hc.blocks[acc[0].block].elems[acc[0].idx + 1:] if d_["k"] == "decl" and (d_.get("icall") or "") in ("accept4", "accept", acc[0].get("callee"))][:1]
         if fdv:
             neg_edges = set()
             for b_ in hc.blocks.values():
@@ -535,3 +548,28 @@ def run(ck):
               "readable is tested before writable" if readable_first else ("the writable arm re-arms the descriptor on every path" if not unarmed else
               "isWritable() is tested before isReadable() and its arm can finish (block %s) without Reactor::modifyFd: an entry that is both "
               "readable and writable is handled as a write only and its input / hang-up edge is lost" % unarmed[0]))
+
+    # ---------------- R16: the listening socket reports a non-empty backlog until it is empty ----------------
+    ck.rule("C08-R16", "I registration mode (effective argument, default included) + C region check",
+            "the acceptor takes connections one wake-up at a time and survives a failing accept (the accept loop catches the error and goes "
+            "on polling), which is sound only while the listening socket is polled level-triggered: the registration's effective mode "
+            "argument -- explicit or the declared default -- is Polling::Mode::Level.  Edge-triggered, a connection that was pending when "
+            "an accept failed (EMFILE, ECONNABORTED) is never reported again and is never served", 1)
+    lb = [f_ for f_ in prog.funcs.values() if f_.base.startswith("Pistache::Tcp::Listener::") and f_.blocks]
+    regs = []
+    for f_ in lb:
+        for e in f_.events("call"):
+            if (e.get("callee") or "") in ("Pistache::Polling::Epoll::addFd",) and len(e.get("args") or []) >= 4:
+                a0 = e["args"][0]
+                if (a0.get("f") or "").endswith("Listener::listen_fd") or (a0.get("t") or "") in ("fd", "listen_fd", "this->listen_fd"):
+                    regs.append((f_, e))
+    ck.require(regs, "registration of the listening socket with the poller not found in Listener")
+    for f_, e in regs:
+        mode = e["args"][3].get("const") or ""
+        txt = e["args"][3].get("t") or ""
+        level = mode.endswith("Mode::Level") or txt.endswith("Mode::Level")
+        ck.ob("C08-R16", "Listener/listen-socket-level-triggered@%s" % f_.base.rsplit("::", 1)[1], level, e.loc, f_,
+              "effective mode %s" % (mode or txt) if level else
+              "the listening socket is registered with %s%s: the accept loop takes one connection per wake-up and continues after a failed "
+              "accept, so a pending connection whose edge was consumed is never accepted" % (mode or txt, " (the declared default)" if e["args"][3].get("dflt") else ""))
+
